@@ -126,6 +126,8 @@ package batchers
 //@   modifies world
 //@   ensures [one-of] (result1 == nil) == (result0 != nil)
 //@   assert at "return file, nil" : baseFile != nil && (dynref(file) == baseFile ==> file_pos(baseFile) == 0)
+// the only failure is a failed open: a file that cannot be decoded as gzip is still read
+//@   assert at "return nil, "#* : baseFile == nil
 
 // forwards every name exactly once, then closes its output exactly once
 //@ func bufferChan
